@@ -12,7 +12,8 @@ RULE = ("cases are (tree, copied node, side, edited node, edit kind): random API
         "inner nodes; for trees of <= 12 nodes every (node, edit kind) pair on both sides, a sample on larger trees. edit kinds: "
         "content, tail, prefix, name, attribute add/overwrite/remove, extras add, namespace declare/re-declare/remove, child "
         "append/insert/remove/replace/shift, remove_children. distinct = distinct (tree value, copied node index, side, node "
-        "index, edit kind); non-trivial = all")
+        "index, edit kind); non-trivial = all"
+        ". Also: copies of copies, the original's registry entries re-read, id strings repeated in the original, wide trees, stale parent links, sources taken out of the registry, a chain of 400 nodes, one copy of tens of thousands of nodes, a document from another interpreter session")
 ASSUMPTIONS = [
     "the parent link of the copy's root is not constrained by the statement",
     "sharing of immutable values (strings) between copy and original is not 'mutable state'",
